@@ -4,6 +4,11 @@
 // output line:  for every category five characters 1/0 = verdict of filter() for the message
 //               types in QtMsgType numeric order (debug, warning, critical, fatal, info),
 //               categories separated by ','.
+// input line with a third field  <ci>:<ti>[,<ci>:<ti>...]  (query sequence: index into the category
+//               list, index into the type order above; repetitions allowed): the queries are put to
+//               the ONE filter object of the line in exactly that order and the output is one
+//               character 1/0 per query (no separators) — a verdict must not depend on what the
+//               object was asked before.
 // One CategoryFilter is constructed per line (rules parsed once), as an application would.
 // The category reaches the filter exactly as in production: as the `const char *category` of a
 // QMessageLogContext (UTF-8 bytes), read back through LogMessage::category().
@@ -42,8 +47,8 @@ int main(int argc, char **argv)
     std::string line;
     while (std::getline(std::cin, line)) {
         std::istringstream is(line);
-        std::string r, cs;
-        is >> r >> cs;
+        std::string r, cs, qs;
+        is >> r >> cs >> qs;
         std::ostringstream o;
         if (qtMode) {
             QString rules = unhex16(r);
@@ -71,6 +76,29 @@ int main(int argc, char **argv)
         CategoryFilter f(unhex16(r));
         std::stringstream cl(cs);
         std::string c;
+        if (!qs.empty() && !qtMode) {
+            std::vector<QByteArray> cats;
+            while (std::getline(cl, c, ','))
+                cats.push_back(unhex16(c).toUtf8());
+            std::stringstream ql(qs);
+            std::string q;
+            while (std::getline(ql, q, ',')) {
+                const size_t colon = q.find(':');
+                const size_t ci = std::stoul(q.substr(0, colon));
+                const size_t ti = std::stoul(q.substr(colon + 1));
+                if (ci >= cats.size() || ti >= 5) {
+                    o << '?';
+                    continue;
+                }
+                const QByteArray &cat = cats[ci];
+                const char *cp = (cat.isEmpty() && nullForEmpty) ? nullptr : cat.constData();
+                QMessageLogContext ctx("file.cpp", 1, "void fn()", cp);
+                LogMessage m(types[ti], ctx, QStringLiteral("text"));
+                o << (f.filter(m) ? '1' : '0');
+            }
+            std::cout << o.str() << "\n";
+            continue;
+        }
         bool first = true;
         while (std::getline(cl, c, ',')) {
             const QByteArray cat = unhex16(c).toUtf8();
